@@ -1734,6 +1734,10 @@ class Frame(object):
                 if r is not None:
                     return r
                 return Sym('%s(%s)' % (n, self._argtext(args, kwargs)))
+            if isinstance(callee, Sym) and callee.text != n and re.match(r'^[\w.()]+$', callee.text):
+                # a local that holds a callable value (bound method, function reference): the call is a call of that value
+                record(callee.text)
+                return Sym('%s(%s)' % (callee.text, self._argtext(args, kwargs)))
             if n in ('bytearray', 'bytes'):
                 record(n)
                 if not args:
